@@ -38,3 +38,128 @@ Theorem C05_clean_reopen_identity :
   forall d : bytes, FileWal.recover walrev_fixed {| FileWal.data := d; FileWal.wal := [] |} = {| FileWal.data := d; FileWal.wal := [] |}.
 Proof. intros d. reflexivity. Qed.
 Print Assumptions C05_clean_reopen_identity.
+
+(* ======================= the collection layer (L2): storage-backed vectors =======================
+   Model: theories/Collections.v — vec.rs line by line as PROGRAMS over the storage interface (cprog: a tree
+   of Storage<D> calls branching on the storage's answers).  `cwp fl p sp Q` (CollWp.v): for every sequence of
+   answers the abstract record map of C04 (StorageSpec.spec_step; free only in the u64 index an insert returns)
+   accepts, p does not die and ends with a result and a map state satisfying Q.  `cwp_sound` transfers every
+   cwp statement to the model of storage.rs over a canonical byte store through C04_step_refines — so nothing
+   is assumed of the storage that C04 did not prove (C05_vec_history_on_storage_* below are such transfers).
+
+   vrep g h slots l   (CollVec.v) the representation invariant: the record g(index h) is
+                      le64 (len h) ++ concat slots ++ spare  (the spare capacity bytes are UNCONSTRAINED),
+                      slot i represents l[i] (for String: the slot is the index of a record le64 len ++ utf8 that
+                      the slot owns), len h = |l| <= capacity h, the index of the vector and the records owned by
+                      its slots are pairwise distinct
+   frame g g' F F'    the exact footprint change: records outside F and F' are untouched, records entering
+                      the footprint were free, records leaving it are freed (no leaks)
+   elem_law E         what is required of an element class (VecValue); proved for u64, i64, n raw inline bytes,
+                      MapValueState, String (CollElems.v) *)
+From Agdb Require Import Collections CollWp CollBytes CollVecBase CollVecOps CollVec CollVec2 CollElems CollVecHist.
+
+(* the reload: on every state satisfying the invariant, DbVec::from_storage(index) succeeds and returns a handle
+   with the same index and length for which the SAME slots represent the SAME list (its capacity is recomputed
+   from the record size — it over-counts by 8 / size elements — and is only required to be >= len) *)
+Theorem C05_vec_reload :
+  forall (T : Type) (E : cv_elem T) (L : elem_law E) (fl : bool) h slots l sp (Q : cres cv_vec -> spec -> Prop),
+    vrep T E L (hp sp) h slots l ->
+    (forall h', vrep T E L (hp sp) h' slots l -> cv_index h' = cv_index h -> cv_len h' = cv_len h -> Q (CrOk h') sp) ->
+    cwp fl (cv_from_storage T E (cv_index h)) sp Q.
+Proof. exact cv_from_storage_spec. Qed.
+Print Assumptions C05_vec_reload.
+
+(* EVERY history (no bound): push, replace, remove, swap, resize, reserve, shrink_to_fit, value, iteration, len,
+   interleaved at will with reloads (VoReload: the handle is dropped and rebuilt by from_storage) and with
+   optimize_storage / drop + open / backup + open of the storage underneath (VoMaint) — started in a state
+   satisfying the invariant with no transaction open, with representable values (op_ok) and a payload
+   8 + size * len that stays a u64 (ops_ok) — yields exactly the observations of the plain list `cl_run`, in which
+   reload and maintenance do nothing: a reloaded vector has the same length, the same elements, and every later
+   operation behaves identically.  At the end the invariant holds for the final list, no transaction is open, and
+   the history touched exactly its footprint (frame: no other record of the storage is read as changed, none is
+   leaked).  Errors: only `Index out of bounds`, exactly when the list operation is out of range. *)
+Theorem C05_vec_history :
+  forall (T : Type) (E : cv_elem T) (L : elem_law E) (fl : bool) ops h slots l sp
+         (Q : cres (cv_vec * list (cv_obs T)) -> spec -> Prop),
+    vrep T E L (hp sp) h slots l -> sdepth sp = 0 -> ops_ok T E L l ops ->
+    (forall h' slots' sp', vrep T E L (hp sp') h' slots' (fst (cl_run l ops)) -> cv_index h' = cv_index h -> sdepth sp' = 0 ->
+        frame (hp sp) (hp sp') (foot T E L h slots) (foot T E L h' slots') -> Q (CrOk (h', snd (cl_run l ops))) sp') ->
+    cwp fl (cv_run T E h ops) sp Q.
+Proof. exact cv_run_spec. Qed.
+Print Assumptions C05_vec_history.
+
+(* the same on the model of storage.rs itself (C04), file-like and memory-like, from a fresh storage: DbVec::new
+   followed by any history either dies by a panic of the storage (a request beyond 2^64 bytes) or returns the
+   list's observations, in a storage state that refines an abstract map in which the invariant holds *)
+Theorem C05_vec_history_on_storage_u64 :
+  forall (ops : store_ops cdata) (fl : bool), kind ops fl ->
+  forall l : list (cv_op N), ops_ok N ce_u64 law_u64 [] l ->
+    let r := cp_run (st_step cdata ops) (h <~ cv_new ;; cv_run N ce_u64 h l) s_init in
+    snd r = CrDead \/
+    exists h' sp' slots', snd r = CrOk (h', snd (cl_run [] l)) /\ Rel (fst r) sp' /\
+                          vrep N ce_u64 law_u64 (hp sp') h' slots' (fst (cl_run [] l)).
+Proof. exact (cv_history_on_storage N ce_u64 law_u64). Qed.
+Print Assumptions C05_vec_history_on_storage_u64.
+
+Theorem C05_vec_history_on_storage_i64 :
+  forall (ops : store_ops cdata) (fl : bool), kind ops fl ->
+  forall l : list (cv_op Z), ops_ok Z ce_i64 law_i64 [] l ->
+    let r := cp_run (st_step cdata ops) (h <~ cv_new ;; cv_run Z ce_i64 h l) s_init in
+    snd r = CrDead \/
+    exists h' sp' slots', snd r = CrOk (h', snd (cl_run [] l)) /\ Rel (fst r) sp' /\
+                          vrep Z ce_i64 law_i64 (hp sp') h' slots' (fst (cl_run [] l)).
+Proof. exact (cv_history_on_storage Z ce_i64 law_i64). Qed.
+Print Assumptions C05_vec_history_on_storage_i64.
+
+(* String elements live out of line (one record each, owned by the slot) *)
+Theorem C05_vec_history_on_storage_string :
+  forall (ops : store_ops cdata) (fl : bool), kind ops fl ->
+  forall l : list (cv_op bytes), ops_ok bytes ce_string law_string [] l ->
+    let r := cp_run (st_step cdata ops) (h <~ cv_new ;; cv_run bytes ce_string h l) s_init in
+    snd r = CrDead \/
+    exists h' sp' slots', snd r = CrOk (h', snd (cl_run [] l)) /\ Rel (fst r) sp' /\
+                          vrep bytes ce_string law_string (hp sp') h' slots' (fst (cl_run [] l)).
+Proof. exact (cv_history_on_storage bytes ce_string law_string). Qed.
+Print Assumptions C05_vec_history_on_storage_string.
+
+(* remove_from_storage frees exactly the footprint (the vector record and every record owned by a slot) *)
+Theorem C05_vec_remove_from_storage :
+  forall (T : Type) (E : cv_elem T) (L : elem_law E) (fl : bool) h slots l sp (Q : cres unit -> spec -> Prop),
+    vrep T E L (hp sp) h slots l ->
+    (forall sp', sdepth sp' = sdepth sp -> frame (hp sp) (hp sp') (foot T E L h slots) [] -> Q (CrOk tt) sp') ->
+    cwp fl (cv_remove_from_storage T E h) sp Q.
+Proof. exact cv_remove_from_storage_spec. Qed.
+Print Assumptions C05_vec_remove_from_storage.
+
+(* what makes the transfer possible: a cwp statement holds of every run on the storage model that does not panic *)
+Theorem C05_cwp_sound :
+  forall (ops : store_ops cdata) (fl : bool), kind ops fl ->
+  forall (A : Type) (p : cprog A) s sp (Q : cres A -> spec -> Prop),
+    Rel s sp -> cwp fl p sp Q ->
+    snd (cp_run (st_step cdata ops) p s) = CrDead \/
+    exists sp', Rel (fst (cp_run (st_step cdata ops) p s)) sp' /\ Q (snd (cp_run (st_step cdata ops) p s)) sp'.
+Proof. exact (fun ops fl K A => cwp_sound ops fl K (A := A)). Qed.
+Print Assumptions C05_cwp_sound.
+
+(* ---- non-vacuity: concrete histories on the storage model, by evaluation ---- *)
+Example C05_vec_sample_u64 :
+  let l := [VoPush 5; VoPush 6; VoPush 7; VoRemove 0; VoValues; VoReload; VoPush 9; VoValues; VoSwap 0 2; VoValues;
+            VoMaint SOptimize; VoMaint SReopen; VoReload; VoValues; VoReplace 7 1; VoResize 1 0; VoShrink; VoReload; VoValues] in
+  ops_ok N ce_u64 law_u64 [] l /\
+  exists h', snd (cp_run (st_step cdata ops_file) (h <~ cv_new ;; cv_run N ce_u64 h l) s_init) = CrOk (h', snd (cl_run [] l)) /\
+             snd (cl_run [] l) = [VbUnit; VbUnit; VbUnit; VbVal 5; VbVals [6; 7]; VbUnit; VbUnit; VbVals [6; 7; 9]; VbUnit;
+                                  VbVals [9; 7; 6]; VbUnit; VbUnit; VbUnit; VbVals [9; 7; 6]; VbErr CvIndex; VbUnit; VbUnit; VbUnit; VbVals [9]].
+Proof.
+  split.
+  - cbn [ops_ok cl_step fst op_ok law_u64 inline_law el_valid fits ce_size ce_u64]. unfold lenN. cbn. repeat split; lia.
+  - eexists. split; vm_compute; reflexivity.
+Qed.
+Print Assumptions C05_vec_sample_u64.
+
+Example C05_vec_sample_string :
+  let l := [VoPush [x41]; VoPush [x42; x43]; VoPush []; VoRemove 0; VoReload; VoPush [x44]; VoSwap 0 2; VoMaint SReopenCopy;
+            VoReload; VoReplace 1 [x45]; VoResize 1 []; VoValues] in
+  exists h', snd (cp_run (st_step cdata ops_mem) (h <~ cv_new ;; cv_run bytes ce_string h l) s_init) = CrOk (h', snd (cl_run [] l)) /\
+             last (snd (cl_run [] l)) VbUnit = VbVals [[x44]].
+Proof. eexists. split; vm_compute; reflexivity. Qed.
+Print Assumptions C05_vec_sample_string.
